@@ -3,6 +3,7 @@ from sfa.report import Ctx
 from sfa.rules import axisrules
 from sfa.rules import atomic
 from sfa.rules import blockrules
+from sfa.rules import own
 
 LEVEL_TEXT = (
     'Static decision of the structural-coherence clause of C03 (one row per index label, one column per column label, a column '
@@ -30,4 +31,6 @@ def run(ctx: Ctx) -> None:
     blockrules.offset_discipline(ctx)
     blockrules.layout_independent_casts(ctx)
     atomic.d_atomic(ctx, only=('type_blocks.',))
+    own.c_handoffs(ctx)
+    own.c_who_may_grow(ctx)
     axisrules.axis_iteration(ctx)
